@@ -228,6 +228,43 @@ OnSubmit(e) ==
             \cup (IF IsPanic(e.res) THEN {} ELSE WalletChecks(e, e.st, obs.utxo, obs.tiph))
        /\ UNCHANGED <<B, U, obs, env>>
 
+(* ---- restart from the block files (C12) ------------------------------------------- *)
+ViewOf(st) == [tip |-> IF st.tiph = 0 THEN "" ELSE st.tip, tiph |-> st.tiph, utxo |-> ObsUtxo(st)]
+SupplyOk(e, st) ==      \* the supply equation on a state whose tip is a known block of a chain rooted in genesis
+    LET T == ViewOf(st) IN
+    T.tip \in DOMAIN B /\ LcMatches(st.lc, PathTo(B, T.tip), T.tiph, env.g)
+       => LimbEq(Supply(T.utxo, T.tiph, env.g, B[T.tip].hdr), env.issued)
+Rooted(st) == LET T == ViewOf(st) IN T.tip \in DOMAIN B /\ LcMatches(st.lc, PathTo(B, T.tip), T.tiph, env.g)
+
+(* a clean restart rebuilds the same tip, the same spendable in-window outputs and the same supply *)
+OnRestart(e) ==
+    LET a == ViewOf(e.pre)  b == ViewOf(e.st)  G == env.g IN
+    /\ bad' = bad
+         \cup (IF IsPanic(e.res) THEN {Bad(e, "C12", "restart-panicked")} ELSE
+               (IF b.tip # a.tip
+                THEN {Bad(e, "C12", IF e.competing > 0 THEN "restart-changed-tip-with-competing-branch-on-disk" ELSE "restart-changed-tip")}
+                ELSE {})
+               \cup (IF b.tip = a.tip /\ Names(InWin(b.utxo, b.tiph, G)) # Names(InWin(a.utxo, a.tiph, G))
+                     THEN {Bad(e, "C12", "restart-changed-spendable-outputs")} ELSE {})
+               \cup (IF ~env.detached /\ ~SupplyOk(e, e.st) THEN {Bad(e, "C12", "restart-changed-supply")} ELSE {}))
+    /\ obs' = IF IsPanic(e.res) THEN obs ELSE b
+    /\ UNCHANGED <<B, U, pool, env>>
+
+(* a crash after any prefix of the storage operations, last write complete / absent / torn: the node comes up, on a *)
+(* block it knew before (the old tip, an ancestor, a block of a known branch), with the supply intact, and goes on  *)
+OnCrash(e) ==
+    LET b == ViewOf(e.st)
+        anc == Rng(PathTo(B, e.pretip)) IN
+    /\ bad' = bad
+         \cup (IF IsPanic(e.res) THEN {Bad(e, "C12", "restart-after-crash-panicked:" \o e.torn)} ELSE
+               (IF b.tip = "" /\ e.intact > 0 THEN {Bad(e, "C12", "came-up-without-chain-despite-intact-blocks")} ELSE {})
+               \cup (IF b.tip # "" /\ b.tip \notin DOMAIN B THEN {Bad(e, "C12", "came-up-on-unknown-block")} ELSE {})
+               \cup (IF b.tip # "" /\ ~env.detached /\ Rooted(e.st) /\ ~SupplyOk(e, e.st)
+                     THEN {Bad(e, "C12", "supply-not-conserved-after-crash")} ELSE {})
+               \cup (IF b.tip \in DOMAIN B /\ ~env.detached /\ Rooted(e.st) /\ e.extend # "AddedLc"
+                     THEN {Bad(e, "C12", "cannot-extend-chain-after-crash:" \o e.extend)} ELSE {}))
+    /\ UNCHANGED <<B, U, obs, pool, env>>
+
 (* a sample of the requirement function (C08): zero from two heartbeats on, never larger than at a   *)
 (* shorter elapsed time for the same burn fee, equal to its definition where that is computable here *)
 OnNeeded(e) ==
@@ -265,6 +302,8 @@ TraceNext ==
          [] e.ev = "Submit" -> OnSubmit(e)
          [] e.ev = "Bundle" -> OnBundle(e)
          [] e.ev = "Needed" -> OnNeeded(e)
+         [] e.ev = "Restart" -> OnRestart(e)
+         [] e.ev = "Crash" -> OnCrash(e)
          [] OTHER -> UNCHANGED <<bad, B, U, obs, pool, env>>
     /\ l' = l + 1
 
